@@ -1069,7 +1069,11 @@ fn main() {
             acc.count(&format!("elem_kind_{}", k % 9));
         });
         r.section("part_random", r.args.n(30_000, 1_000_000), |_k, rng, acc| {
-            let n = if rng.chance(0.1) { 1 + rng.below(500) } else { 1 + rng.below(50) };
+            let n = match rng.below(50) {
+                0 | 1 => 513 + rng.below(1600), // beyond two blocks of 256
+                2..=6 => 1 + rng.below(500),
+                _ => 1 + rng.below(50),
+            };
             let pat = random_lane(rng, n);
             let data = tracked(&pat);
             let p = rng.below(n);
